@@ -9,6 +9,7 @@ import (
 	"path/filepath"
 	"strings"
 	"sync"
+	"time"
 
 	"verifharness/hx"
 )
@@ -90,7 +91,11 @@ func childMain(chunkFile, resFile string) {
 	for i, c := range cases {
 		i := i
 		write(resLine{Begin: &i})
+		t0 := time.Now()
 		res := runCase(c.Script)
+		if d := time.Since(t0); d > 150*time.Millisecond && os.Getenv("C20_SLOW") != "" {
+			fmt.Fprintf(os.Stderr, "SLOW %v %s\n", d, strings.Join(c.Script, "; "))
+		}
 		write(resLine{Done: &i, Res: res})
 		if res.Counts["ev:timeout"] > 0 {
 			hung++
@@ -184,6 +189,9 @@ func runAll(r *hx.Run, cases []caseSpec) {
 		var errBuf strings.Builder
 		cmd.Stderr = &errBuf
 		runErr := cmd.Run()
+		if os.Getenv("C20_SLOW") != "" {
+			fmt.Fprint(os.Stderr, errBuf.String())
+		}
 		begun, done, aborted := -1, -1, false
 		if f, err := os.Open(resFile); err == nil {
 			sc := bufio.NewScanner(f)
